@@ -17,7 +17,7 @@ EXPLANATION = (
     "errors set the error flag and continue; (FLAG) only set_errored writes ERRORED, process::exit and raw stderr "
     "writes are confined to the message macros, err_message! sets the flag before printing; (CONFIG) matcher / "
     "searcher / walker construction errors are propagated before the first search. That every failing syscall "
-    "becomes an Err in the libraries, and promptness, are not decided.")
+    "becomes an Err in the libraries, and promptness, are not decided. In the parallel worker has_match() is consulted, and the shared flag set, on every path from a successful search to the closure's return (including the broken-pipe Quit).")
 NOT_DECIDED = ["that every failing syscall is turned into an Err by the libraries", "promptness after the pipe closes"]
 
 KIND = "std::io::error::Error::kind"
